@@ -39,7 +39,9 @@ class Worktree:
         self.dir = tempfile.mkdtemp(prefix="seedwt-", dir="/tmp")
         os.rmdir(self.dir)
         for attempt in range(20):
-            rc, out = sh("git -C %s worktree add -q --detach %s HEAD" % (REPO, self.dir))
+            # SEEDED_BASE: the commit a delivery was written against (a later fix: commit of mine may have moved its context;
+            # `rebase` then ports the kept patch to HEAD)
+            rc, out = sh("git -C %s worktree add -q --detach %s %s" % (REPO, self.dir, os.environ.get("SEEDED_BASE", "HEAD")))
             if not rc:
                 break
             time.sleep(0.3 + 0.1 * attempt)
